@@ -81,25 +81,22 @@ def build(tier, work, builder):
                      ("expression_t::clone_deeper(symbol_t, symbol_t)", r"^expression_t expression_t::clone_deeper\(symbol_t from, symbol_t to\) const"),
                      ("expression_t::clone_deeper(frame_t, frame_t)", r"^expression_t expression_t::clone_deeper\(frame_t frame, frame_t select\) const")):
         sl = lower_common(X.function(src, name, rx))
-        X.rename_self_calls(sl, "clone_deeper", pattern=r"\bs\.clone_deeper\(", minimum=1)
-        mm = RANGE_FOR.search(sl.text)
-        if not mm:
-            raise X.ExtractionBroken(f"{name}: range-for over data->sub changed shape (rule L7 must fire)")
-        sl.text = (sl.text[:mm.start()] + "for (const expression_t* verif_it = data->sub.begin(); verif_it != data->sub.end(); ++verif_it) { const expression_t& s = *verif_it; "
-                   "expr.data->sub.push_back(s.%s(%s)); }" % (mm.group(1), mm.group(2)) + sl.text[mm.end():])
-        sl.rules["L7:range-for->iterator loop"] = 1
+        X.rename_self_calls(sl, "clone_deeper", pattern=r"[\w\]\)]\s*(?:\.|->)\s*clone_deeper\(", minimum=0)
+        X.lower_range_for(sl, "expression_t")
         if "symbol_t from" in rx:
             sl.sub("L20:x = c ? a : b (class-typed) -> if/else", r"expr\.data->symbol = \(data->symbol == from\) \? to : data->symbol;",
-                   "if (data->symbol == from) expr.data->symbol = to; else expr.data->symbol = data->symbol;", required=True)
+                   "if (data->symbol == from) expr.data->symbol = to; else expr.data->symbol = data->symbol;", required="? to : data->symbol" in sl.text)
         fl.append(sl)
     su = X.function(src, "expression_t::subst", r"^expression_t expression_t::subst\(symbol_t symbol, expression_t expr\) const")
-    X.rename_self_calls(su, "subst", pattern=r"\]\.subst\(", minimum=1)
-    su.sub("L12b:get_size->contract", r"\bget_size\(\)", "get_size__contract()", required=True)
+    X.rename_self_calls(su, "subst", pattern=r"[\w\]\)]\s*\.\s*subst\(", minimum=0)
+    X.lower_range_for(su, "expression_t")
+    su.sub("L12b:get_size->contract", r"\bget_size\(\)", "get_size__contract()")
     fl.append(su)
     eq = X.function(src, "expression_t::equal", r"^bool expression_t::equal\(const expression_t& e\) const")
-    X.rename_self_calls(eq, "equal", pattern=r"\]\.equal\(", minimum=1)
-    eq.sub("L19:std::visit(ValueTypeEquality{}, a, b)->16-way dispatch", r"std::visit\(ValueTypeEquality\{\}, ", "verif_visit2(", required=True)
-    eq.sub("L12b:get_size->contract", r"\bget_size\(\)", "get_size__contract()", required=True)
+    X.rename_self_calls(eq, "equal", pattern=r"[\w\]\)]\s*\.\s*equal\(", minimum=0)
+    X.lower_range_for(eq, "expression_t")
+    eq.sub("L19:std::visit(ValueTypeEquality{}, a, b)->16-way dispatch", r"std::visit\(ValueTypeEquality\{\}, ", "verif_visit2(", required="std::visit" in eq.text)
+    eq.sub("L12b:get_size->contract", r"\bget_size\(\)", "get_size__contract()")
     fl.append(eq)
     gsz = X.function(src, "expression_t::get_size", r"^size_t expression_t::get_size\(\) const")
     gsz.sub("L19:std::get<int32_t>", r"std::get<int32_t>\(data->value\)", "verif_get_int(data->value)", required=True)
